@@ -16,10 +16,12 @@ import (
 	"os"
 	"os/exec"
 	"path/filepath"
+	"regexp"
 	"sort"
 	"strconv"
 	"strings"
 	"sync"
+	"sync/atomic"
 	"time"
 
 	"github.com/nspcc-dev/neo-go/pkg/compiler"
@@ -95,6 +97,80 @@ type Prog struct {
 	// the prefix neo-go's compiler inlines calls into (inlinePrefix), "b.go" is a
 	// second file of package main (the contract is then compiled as a directory).
 	Extra map[string]string `json:"extra,omitempty"`
+	// Deploy: the program declares _deploy(data any, isUpdate bool) functions (in
+	// package main and/or in packages of module x). Both sides then run them
+	// between package initialisation and the function under test: the VM enters
+	// the contract's _deploy method (arguments null, false) in the context chain
+	// _initialize -> _deploy -> function, the reference driver calls the packages'
+	// functions in package initialisation order and main's last (docs/compiler.md:
+	// "_deploy() functions are called for every imported package in the same order
+	// as init()").
+	Deploy bool `json:"deploy,omitempty"`
+}
+
+var reDeployFunc = regexp.MustCompile(`(?m)^func _deploy\(`)
+
+// deployPackages lists the directories (relative to the module root, "" = package
+// main) of the packages of module x that declare a _deploy function.
+func (p *Prog) deployPackages() (main bool, dirs []string) {
+	main = reDeployFunc.MatchString(p.Source())
+	seen := map[string]bool{}
+	for k, v := range p.Extra {
+		if !reDeployFunc.MatchString(v) {
+			continue
+		}
+		i := strings.LastIndex(k, "/")
+		if i < 0 {
+			main = true
+			continue
+		}
+		if d := k[:i]; !seen[d] && !strings.HasPrefix(k, "inl/") {
+			seen[d] = true
+			dirs = append(dirs, d)
+		}
+	}
+	sort.Strings(dirs)
+	return main, dirs
+}
+
+var rePkgClause = regexp.MustCompile(`(?m)^package (\w+)`)
+
+// writeDeployRef writes the reference-only files (build tag c14ref, which the
+// neo-go compiler does not set) that make the packages' _deploy functions
+// callable: every package registers its function when it is initialised.
+func writeDeployRef(dir string, p *Prog) error {
+	_, dirs := p.deployPackages()
+	if len(dirs) == 0 {
+		return nil
+	}
+	if err := os.MkdirAll(filepath.Join(dir, "c14reg"), 0o755); err != nil {
+		return err
+	}
+	reg := "//go:build c14ref\n\npackage c14reg\n\nvar Deploys []func()\n\nfunc Register(f func()) { Deploys = append(Deploys, f) }\n"
+	if err := os.WriteFile(filepath.Join(dir, "c14reg", "reg.go"), []byte(reg), 0o644); err != nil {
+		return err
+	}
+	for _, d := range dirs {
+		name := ""
+		for k, v := range p.Extra {
+			if strings.HasPrefix(k, d+"/") && !strings.Contains(k[len(d)+1:], "/") {
+				if m := rePkgClause.FindStringSubmatch(v); m != nil {
+					name = m[1]
+				}
+			}
+		}
+		if name == "" {
+			return fmt.Errorf("no package clause in %s", d)
+		}
+		src := "//go:build c14ref\n\npackage " + name + "\n\nimport \"x/c14reg\"\n\nfunc init() { c14reg.Register(func() { _deploy(nil, false) }) }\n"
+		if err := os.MkdirAll(filepath.Join(dir, filepath.FromSlash(d)), 0o755); err != nil {
+			return err
+		}
+		if err := os.WriteFile(filepath.Join(dir, filepath.FromSlash(d), "zz_c14ref.go"), []byte(src), 0o644); err != nil {
+			return err
+		}
+	}
+	return nil
 }
 
 // inlineModule is the module path of the nested module "inl": canInline() of the
@@ -276,6 +352,7 @@ func main() {
 		onlyF, _ = strconv.Atoi(os.Args[1])
 		onlyT, _ = strconv.Atoi(os.Args[2])
 	}
+	deployAll()
 	runAll()
 }
 `
@@ -314,7 +391,22 @@ func encFn(t Ty) string {
 // and one panic guard per distinct signature.
 func driver(p *Prog) string {
 	var b strings.Builder
-	b.WriteString(driverCommon)
+	common := driverCommon
+	dmain, ddirs := p.deployPackages()
+	if p.Deploy && len(ddirs) > 0 {
+		common = strings.Replace(common, "import (\n", "import (\n\t\"x/c14reg\"\n", 1)
+	}
+	b.WriteString(common)
+	b.WriteString("func deployAll() {\n")
+	if p.Deploy {
+		if len(ddirs) > 0 {
+			b.WriteString("\tfor _, d := range c14reg.Deploys {\n\t\td()\n\t}\n")
+		}
+		if dmain {
+			b.WriteString("\t_deploy(nil, false)\n")
+		}
+	}
+	b.WriteString("}\n\n")
 	if strings.Contains(p.Prelude, "type Pair struct") {
 		b.WriteString("func ePair(v Pair) string { return \"<\" + eInt(v.A) + \" \" + eInt(v.B) + \">\" }\n")
 		b.WriteString("func ePPair(v *Pair) string { if v == nil { return \"nil\" }; return ePair(*v) }\n")
@@ -393,14 +485,22 @@ func callExpr(f *Fn, args []string) string {
 // goSide builds and runs p in dir and returns outcome[fn][tuple].
 func goSide(dir string, p *Prog) ([][]string, error) {
 	setupEnv()
+	if v, ok := refCache.Load(progKey(p)); ok {
+		return v.([][]string), nil // built and run as part of a group (group_test.go)
+	}
 	if err := writeTree(dir, p); err != nil {
 		return nil, err
 	}
 	drv, buildArgs := driver(p), []string{"build", "-gcflags=-N -l", "-o", "prog.bin", "."}
-	if p.multiFile() {
+	if p.multiFile() || p.Deploy {
 		// the contract is compiled as a directory: the driver must not be part of it
 		drv = "//go:build c14ref\n\n" + drv
 		buildArgs = []string{"build", "-tags", "c14ref", "-gcflags=-N -l", "-o", "prog.bin", "."}
+	}
+	if p.Deploy {
+		if err := writeDeployRef(dir, p); err != nil {
+			return nil, err
+		}
 	}
 	if err := os.WriteFile(filepath.Join(dir, "main.go"), []byte(drv), 0o644); err != nil {
 		return nil, err
@@ -416,6 +516,25 @@ func goSide(dir string, p *Prog) ([][]string, error) {
 	if err != nil {
 		return nil, fmt.Errorf("go build: %v\n%s", err, trunc(string(out), 3000))
 	}
+	run := func(args ...string) ([]byte, error) {
+		ctx, cancel := context.WithTimeout(context.Background(), 2*time.Minute)
+		defer cancel()
+		c := exec.CommandContext(ctx, filepath.Join(dir, "prog.bin"), args...)
+		c.Dir = dir
+		var stderr bytes.Buffer
+		c.Stderr = &stderr
+		out, err := c.Output()
+		if err != nil {
+			return out, fmt.Errorf("reference run %v: %v\n%s", args, err, trunc(stderr.String(), 2000))
+		}
+		return out, nil
+	}
+	return collectRef(p, run)
+}
+
+// collectRef runs the reference binary of p (all calls at once, then every call
+// of a stateful function in a process of its own) and returns outcome[fn][tuple].
+func collectRef(p *Prog, run func(args ...string) ([]byte, error)) ([][]string, error) {
 	res := make([][]string, len(p.Fns))
 	for i := range p.Fns {
 		res[i] = make([]string, len(p.Fns[i].argTuples()))
@@ -438,20 +557,7 @@ func goSide(dir string, p *Prog) ([][]string, error) {
 		}
 		return nil
 	}
-	run := func(args ...string) ([]byte, error) {
-		ctx, cancel := context.WithTimeout(context.Background(), 2*time.Minute)
-		defer cancel()
-		c := exec.CommandContext(ctx, filepath.Join(dir, "prog.bin"), args...)
-		c.Dir = dir
-		var stderr bytes.Buffer
-		c.Stderr = &stderr
-		out, err := c.Output()
-		if err != nil {
-			return out, fmt.Errorf("reference run %v: %v\n%s", args, err, trunc(stderr.String(), 2000))
-		}
-		return out, nil
-	}
-	out, err = run()
+	out, err := run()
 	if err != nil {
 		return nil, err
 	}
@@ -662,6 +768,11 @@ func (c *compiled) vmCall(f *Fn, tuple []string) (outcome string, diag string) {
 	v.SetGasLimit(gasLimit)
 	v.LoadScriptWithFlags(c.script, callflag.NoneFlag)
 	v.Context().Jump(int(m.Range.Start))
+	dep := c.byID[manifest.MethodDeploy]
+	if dep != nil {
+		atomic.AddInt64(&fstats.chains, 1)
+		v.Call(int(dep.Range.Start)) // runs after _initialize, before the function (contexts of one script share static slots and the evaluation stack)
+	}
 	if c.initOff >= 0 {
 		v.Call(c.initOff)
 	}
@@ -669,6 +780,10 @@ func (c *compiled) vmCall(f *Fn, tuple []string) (outcome string, diag string) {
 	v.Estack().PushItem(sentinel)
 	for i := len(tuple) - 1; i >= 0; i-- {
 		v.Estack().PushItem(argItem(f.Params[i], tuple[i]))
+	}
+	if dep != nil {
+		v.Estack().PushItem(stackitem.NewBool(false)) // isUpdate
+		v.Estack().PushItem(stackitem.Null{})        // data
 	}
 	var err error
 	big, hang := false, false
